@@ -17,6 +17,7 @@
     bind <ns> <name> <uid> <node> <first> <pick> <fault> <pfault>
     deliver <i> <fault> <pfault>
     resync <order> <fault> <pfault>
+    (bind … <fault> <pfault> [lost|unavail]: the Binding call's response is lost / the apiserver is unavailable)
     admres <ip> <text> <policy> | admunres <ip>      (administrator's reservation: labelled object + its watch event)
     resyncsnap                                       (fetchChecklist: the snapshot is kept)
     resyncrec <ip> <fault> <pfault>                  (one iteration of the resync loop for a snapshot entry)
@@ -113,7 +114,7 @@ def showPhase : Phase → String
 
 def showPod (p : Pod) : String :=
   p.ns ++ "/" ++ p.name ++ ":" ++ toString p.uid ++ "|" ++ showPhase p.phase ++ "|" ++ tilde p.node ++ "|" ++
-    (if p.handed.isEmpty then "-" else joinWith "+" (p.handed.map showHInfo))
+    (if p.handed.isEmpty then "-" else joinWith "+" (p.handed.map showHInfo)) ++ (if p.terminating then "|T" else "")
 
 def pcallIP : PCall → IP
   | .assign _ ip _ => ip
@@ -161,6 +162,7 @@ def parseMove (w : List String) : Option (String × Move) :=
   | ["pod", "delete", ns, name] => some ("", .deletePod ns name)
   | ["pod", "finish", ns, name] => some ("", .finishPod ns name)
   | ["pod", "run", ns, name] => some ("", .runPod ns name)
+  | ["pod", "term", ns, name, fault] => do let k ← fault.toNat?; pure ("", .markTerminating ns name k)
   | ["app", "scale", kind, ns, app, n] => do
     let k ← parseKind kind; let r ← n.toNat?; pure ("", .scale k ns app r)
   | ["app", "delete", kind, ns, app] => do let k ← parseKind kind; pure ("", .deleteApp k ns app)
@@ -180,6 +182,13 @@ def parseMove (w : List String) : Option (String × Move) :=
     let u ← uid.toNat?; let f ← parseOptNat first; let p ← parseOptNat pick
     let k ← fault.toNat?; let pk ← pfault.toNat?
     pure ("bind", .bind ns name u node { first := f, pick := p } k pk)
+  | ["bind", ns, name, uid, node, first, pick, fault, pfault, answer] => do
+    let u ← uid.toNat?; let f ← parseOptNat first; let p ← parseOptNat pick
+    let k ← fault.toNat?; let pk ← pfault.toNat?
+    let a ← (match answer with
+      | "lost" => some BindAnswer.lost | "unavail" => some BindAnswer.unavailable | "truthful" => some BindAnswer.truthful
+      | _ => none)
+    pure ("bind", .bind ns name u node { first := f, pick := p, answer := a } k pk)
   | ["deliver", i, fault, pfault] => do
     let n ← i.toNat?; let k ← fault.toNat?; let pk ← pfault.toNat?; pure ("", .deliver n k pk)
   | ["resync", order, fault, pfault] => do
